@@ -36,8 +36,11 @@ def build_plan(choice: Choice, tier):
             ops.append(["iter_all"])
         else:
             for _ in range(1 + d(6, "script.len")):
-                k = d(8, "op")
-                if k == 6:
+                k = d(10, "op")
+                if k in (8, 9) and p["kind"] != "MapAccessFile":
+                    # continue the process's iterator (inherited from the parent if one was running at the fork)
+                    ops.append(["iter_next", 1 + d(3, "iter.k")])
+                elif k == 6:
                     ops.append(["open"])            # documented no-op on an opened object (e.g. `with f:` in a worker)
                 elif k == 7:
                     ops.append(["close_open"])      # the process closes its handle and opens the file again
@@ -67,6 +70,9 @@ def build_plan(choice: Choice, tier):
         s.insert(d(len(s) + 1, "grandchild.pos"), ["fork", idx])
         scripts[idx] = script(2, False)
     scripts[0] = parent
+    # fault: the first open() in one child fails with EMFILE (its first access raises); afterwards the child's
+    # accesses may fail, but whatever they return must be the right line
+    p["open_fault_actor"] = (1 + d(n_children, "open.fault.actor")) if d(6, "open.fault") == 5 else None
     p["scripts"] = {str(k): v for k, v in sorted(scripts.items())}
     p["stickiness"] = [0.0, 0.3, 0.7, 0.9][d(4, "stickiness")]
     return p
@@ -98,6 +104,8 @@ def execute(plan, choice, tmpdir, trace):
     chans = Channels(MAX_ACTORS)
     scripts = {int(k): v for k, v in plan["scripts"].items()}
 
+    st = {"it": None, "pos": 0}     # per-process iterator state: copied by fork together with the iterator itself
+
     def do(obj, op):
         if op[0] == "get":
             if kind == "MapAccessFile":
@@ -108,17 +116,48 @@ def execute(plan, choice, tmpdir, trace):
             return ["slice", op[1], op[2], obj[op[1]:op[2]]]
         if op[0] == "iter_all":
             return ["iter_all", list(obj)]
+        if op[0] == "iter_next":
+            if st["it"] is None:
+                st["it"] = iter(obj)
+                st["pos"] = 0
+            out = []
+            for _ in range(op[1]):
+                try:
+                    v = next(st["it"])
+                except StopIteration:
+                    v = None
+                except BaseException:
+                    st["it"] = None      # a generator that raised is finished: the process starts a new one next time
+                    raise
+                out.append([st["pos"], v])
+                st["pos"] += 1
+            return ["iter_next", out]
         if op[0] == "open":
             obj.open()
             return ["noop"]
         if op[0] == "close_open":
+            # the process gives up its iterator before it closes the handle (continuing an iteration across
+            # close()/open() is outside the property: it is not a matter of other processes)
+            st["it"] = None
             obj.close()
             obj.open()
             return ["noop"]
         raise ValueError(op)
 
+    real_open = files.open if hasattr(files, "open") else open
+
     def actor_main(actor: Actor, obj):
         script = scripts[actor.index]
+        if plan.get("open_fault_actor") == actor.index:
+            state = {"n": 0}
+
+            def failing_open(*a, **kw):
+                state["n"] += 1
+                if state["n"] == 1:
+                    import errno
+                    raise OSError(errno.EMFILE, "injected: too many open files")
+                return real_open(*a, **kw)
+            files.open = failing_open
         for oi, op in enumerate(script):
             actor.stop(f"op{oi}:{op[0]}")
             if op[0] == "fork":
@@ -177,9 +216,19 @@ def execute(plan, choice, tmpdir, trace):
     def short(v):
         return v if not isinstance(v, str) or len(v) < 40 else v[:25] + f"...({len(v)})"
 
+    faulted = set()
+    if plan.get("open_fault_actor") is not None:
+        # the child with the injected EMFILE and every process it forks afterwards (they inherit its state)
+        todo = [plan["open_fault_actor"]]
+        while todo:
+            a = todo.pop()
+            faulted.add(a)
+            todo.extend(op[1] for op in scripts.get(a, []) if op[0] == "fork")
     for actor, res in director.results:
         role = "parent" if actor == 0 else "child"
         if res[0] == "error":
+            if actor in faulted:
+                continue    # after the injected EMFILE the child's accesses may fail; wrong lines still count
             viol.append({"class": "exception", "site": f"{role}:{res[2].split('(')[0]}", "message": f"actor{actor} {res[1]} raised {res[2]}"})
         elif res[0] == "get":
             checked += 1
@@ -195,6 +244,13 @@ def execute(plan, choice, tmpdir, trace):
             if res[3] != exp:
                 viol.append({"class": "wrong-line", "site": f"{kind}:slice",
                              "message": f"actor{actor} ({role}) slice {res[1]}:{res[2]} got {[short(x) for x in res[3]]}"})
+        elif res[0] == "iter_next":
+            for pos, v in res[1]:
+                checked += 1
+                exp = lines[pos] if pos < n else None
+                if v != exp:
+                    viol.append({"class": "wrong-line", "site": f"{kind}:iterator-continued",
+                                 "message": f"actor{actor} ({role}) iterator position {pos}: got {short(v)!r}, expected {short(exp)!r}"})
         elif res[0] == "iter_all":
             checked += 1
             if res[1] != lines:
@@ -223,7 +279,7 @@ class Spec:
         "Linux fork semantics of this sandbox (shared open file description, copied user-space buffer)",
         "sampling, not enumeration",
     ]
-    PROBES = ["grandchild", "parent-warm-buffer", "long-lines", "interleaved-seek-read"]
+    PROBES = ["grandchild", "parent-warm-buffer", "long-lines", "interleaved-seek-read", "iterator-across-fork", "open-fault"]
     RULE = ("one run = drawn class (buffered / memory-mapped / map file), file of unique lines (optionally > 8 KiB), "
             "parent warm-up reads, 1-4 children forked at drawn points of the parent's script (optionally a grandchild), "
             "per-process access scripts, and the seeded order in which the processes execute source lines; non-trivial = "
@@ -258,6 +314,11 @@ class Spec:
             probes["long-lines"] = 1
         if director.switches >= 2:
             probes["interleaved-seek-read"] = 1
+        if any(op[0] == "iter_next" for op in plan["scripts"]["0"]) and any(
+                op[0] == "iter_next" for k2, sc in plan["scripts"].items() if k2 != "0" for op in sc):
+            probes["iterator-across-fork"] = 1
+        if plan.get("open_fault_actor") is not None:
+            probes["open-fault"] = 1
         res = {"verdict": "violation" if viol else "ok", "violations": viol, "digest": director.digest(),
                "signature": director.signature(), "steps": director.step, "switches": director.switches,
                "preemptions": director.switches, "sync_events": len(director.results), "max_live": director.max_live,
